@@ -1090,11 +1090,82 @@ func (d *docB) tags(recs []rec, hints bool, device string, v variant) []string {
 		}
 	}
 	var scanSheet func(sh *sheetB)
+	hasInvalid := func(top *node) bool {
+		found := false
+		var walk func(nd *node)
+		walk = func(nd *node) {
+			if strings.Contains(nd.sel, ":bogus") {
+				found = true
+			}
+			for _, it := range nd.items {
+				switch it := it.(type) {
+				case pad:
+					if it == 'X' {
+						found = true
+					}
+				case *node:
+					walk(it)
+				}
+			}
+		}
+		walk(top)
+		return found
+	}
+	// onlyDropped: the rule has no declaration of its own, all its nested rules are dropped
+	// ones and at least one of them is dropped for its unsupported pseudo-element
+	onlyDropped := func(top *node) bool {
+		nU := 0
+		for _, it := range top.items {
+			switch it := it.(type) {
+			case pad:
+				switch it {
+				case 'U':
+					nU++
+				case 'X':
+				default:
+					return false
+				}
+			case *node:
+				switch {
+				case strings.Contains(it.sel, "::selection"):
+					nU++
+				case strings.Contains(it.sel, ":bogus"):
+				default:
+					return false
+				}
+			default:
+				return false
+			}
+		}
+		return nU > 0
+	}
 	scanSheet = func(sh *sheetB) {
 		for _, im := range sh.imports {
 			scanSheet(im.sheet)
 		}
-		for _, it := range sh.items {
+		for i, it := range sh.items {
+			switch it.(type) {
+			case importB:
+				// an @import preceded only by style rules that are valid (and so make the
+				// @import invalid) but contribute no entry of their own: rules that hold nothing
+				// but dropped nested rules
+				allNothing, allOnlyDropped := i > 0, i > 0
+				for _, prev := range sh.items[:i] {
+					nd, ok := prev.(*node)
+					if !ok || !(hasInvalid(nd) || onlyDropped(nd)) {
+						allNothing = false
+					}
+					if !ok || !onlyDropped(nd) {
+						allOnlyDropped = false
+					}
+				}
+				switch {
+				case allOnlyDropped:
+					set["import-after-rule-of-only-unsupported-pseudo-element-rules"] = true
+				case allNothing:
+					set["import-after-rule-with-invalid-nested-selector"] = true
+				}
+			}
 			switch it := it.(type) {
 			case *node:
 				scan(it)
